@@ -42,6 +42,7 @@ func (w *world) simulateCrowd(choices []int) {
 	st := newStub(cfg.Stub, cfg.craftCtx()) // no digest check: one oracle, nobody ever finds
 	curStub.Store(st)
 	kernel.EnableAuto()
+	kernel.SetSelectSeed(cfg.Strat.Seed)
 	k := kernel.New(cfg.Strat.build(), choices, w.replay)
 	w.k = k
 	k.Journal = w.journal
